@@ -344,6 +344,23 @@ theorem cell_with_finds_iff_exists {s : CellStore} (h : CellInv s) {nodes : List
 theorem cell_count_exact {s : CellStore} (h : CellInv s) :
     s.n = ((s.c2n.countP liveRow : Nat) : Int) := h.count
 
+/-- counts exact for `ref_cell_degree_with2` / `ref_cell_list_with2`: the cells reported for a node pair are
+    the valid cells containing both, once per (occurrence of `node0`) × (occurrence of `node1`);
+    `degree_with2` is the length of that report, `list_with2` returns it unless it exceeds `max_cell` -/
+theorem cell_with2_counts_exact {s : CellStore} (h : CellInv s) (n0 n1 : Int) :
+    (∀ c, (s.having2 n0 n1).count c =
+      if s.validCell c = true then (s.cellNodes c).count n0 * (s.cellNodes c).count n1 else 0) ∧
+    s.degreeWith2 n0 n1 = (s.having2 n0 n1).length ∧
+    (∀ m : Int, ((s.having2 n0 n1).length : Int) ≤ m → s.listWith2 n0 n1 m = (.ok, s.having2 n0 n1)) ∧
+    (∀ m : Int, m < ((s.having2 n0 n1).length : Int) → (s.listWith2 n0 n1 m).1 = .increase_limit) := by
+  refine ⟨having2_count h n0 n1, rfl, ?_, ?_⟩
+  · intro m hm
+    have : ¬ (((s.having2 n0 n1).length : Int) > m) := by omega
+    simp [listWith2, this]
+  · intro m hm
+    have : ((s.having2 n0 n1).length : Int) > m := by omega
+    simp [listWith2, this]
+
 /-- frame: `add` returns an id that was not valid, stores exactly `nodes` there and leaves every valid cell
     alone; `remove` leaves every other valid cell alone -/
 theorem cell_frame {s : CellStore} (h : CellInv s) :
